@@ -45,6 +45,15 @@ def gen_cases(tier, seed):
                 else:
                     c["args"] = {}
                 cases.append(c)
+        # every nonlinearity with a non-zero `a` (only leaky_relu may use it), both modes: enumerated, not left to the draw above
+        for ki, (nl_, a_) in enumerate([("relu", 1.0), ("relu", 0.2), ("tanh", 0.2), ("selu", 1.0), ("sigmoid", 0.2), ("linear", 1.0), ("conv2d", 0.2),
+                                        ("leaky_relu", 0.0), ("leaky_relu", 0.2), ("leaky_relu", 1.0)]):
+            for name in ("kaiming_uniform_", "kaiming_normal_"):
+                if tier == "quick" and (ki + len(name) + rep) % 2:
+                    continue
+                cases.append({"init": name, "shape": [[120, 90], [60, 30, 3, 3]][ki % 2], "dtype": ["float32", "float64"][(ki + rep) % 2], "req": False,
+                              "seed": int(rng.integers(2 ** 31)), "storage": "plain",
+                              "args": {"a": a_, "mode": ["fan_in", "fan_out"][(ki + rep) % 2], "nonlinearity": nl_}})
         # small tensors with an odd fan_in + fan_out (the formulas are exact there too): many fills pooled into one sample
         for name in ("xavier_uniform_", "xavier_normal_", "kaiming_uniform_", "kaiming_normal_", "uniform_", "normal_"):
             for shp in ([3, 4], [10, 1], [4, 3, 3], [2, 1, 3, 3], [5, 2]):
